@@ -470,6 +470,17 @@ pub fn run(env: &Env) -> i32 {
     cov.insert("simulated_seconds".into(), json!(results.iter().map(|r| r.sim_ns as i128).sum::<i128>() as f64 / 1e9));
     cov.insert("runs_per_hour".into(), json!((evals as f64 / wall * 3600.0) as u64));
     cov.insert("fault_kinds_fired".into(), json!({"hash-key": evals, "clock-fine": evals, "clock-stall": results.iter().map(|r| r.stalls_fired).sum::<usize>()}));
+    crate::report::add_probes(
+        &mut cov,
+        &[
+            ("time box fired", results.iter().map(|r| r.stalls_fired).sum::<usize>()),
+            ("a cut left fewer facts than the fixpoint", results.iter().map(|r| r.facts_lost_by_cut).sum::<usize>()),
+            ("constant claim judged", results.iter().map(|r| r.value_claims).sum::<usize>()),
+            ("degree claim judged", results.iter().map(|r| r.degree_claims).sum::<usize>()),
+            ("pass-level claim matched to a node", results.iter().map(|r| r.pass_claims).sum::<usize>()),
+            ("pair of cuts", results.iter().map(|r| r.pair_cuts).sum::<usize>()),
+        ],
+    );
     cov.insert("components".into(), json!({"real": ["parse_definition", "into_cfg", "into_ssa incl. the real time-boxed propagate_values / propagate_degrees loops", "all 13 analysis passes"], "oracle": ["reference interpreter (interp.rs), independent of circom_algebra"], "simulated": ["clock_gettime (stalls at chosen read indices)", "getrandom"], "not_run": ["main.rs", "writers"], "stubbed": ["AnalysisContext: no other definitions"]}));
     Evidence {
         property: "C20".into(),
